@@ -2,8 +2,10 @@ package props
 
 import (
 	"bytes"
+	"encoding/json"
 	"fmt"
 	"hash/fnv"
+	"io"
 	"strings"
 	"sync"
 
@@ -50,11 +52,28 @@ func seedOf(prefix string) uint64 {
 	return h.Sum64()
 }
 
+// oneByte delivers one byte per Read call (a legal io.Reader: short reads without error).
+type oneByte struct{ r io.Reader }
+
+func (o oneByte) Read(p []byte) (int, error) {
+	if len(p) == 0 {
+		return 0, nil
+	}
+	return o.r.Read(p[:1])
+}
+
+func c17RNG(seed uint64, short bool) io.Reader {
+	if short {
+		return oneByte{hx.NewRNG(seed)}
+	}
+	return hx.NewRNG(seed)
+}
+
 // c17Replay executes a history and returns the token after every step.
-func c17Replay(hist string) ([]*biscuit.Biscuit, error) {
+func c17Replay(hist string, short bool) ([]*biscuit.Biscuit, error) {
 	root := byte(hist[0] - '0')
 	_, priv := hx.Keys(root)
-	b := biscuit.NewBuilder(priv, biscuit.WithRNG(hx.NewRNG(seedOf(hist[:2]))))
+	b := biscuit.NewBuilder(priv, biscuit.WithRNG(c17RNG(seedOf(hist[:2]), short)))
 	if err := hx.FillBuilder(b, c17Contents[hist[1]]); err != nil {
 		return nil, err
 	}
@@ -70,9 +89,9 @@ func c17Replay(hist string) ([]*biscuit.Biscuit, error) {
 			if err := hx.FillBlock(bb, c17Contents[o-32]); err != nil {
 				return nil, err
 			}
-			tok, err = tok.Append(hx.NewRNG(seedOf(hist[:k+1])), bb.Build())
+			tok, err = tok.Append(c17RNG(seedOf(hist[:k+1]), short), bb.Build())
 		case 'S':
-			tok, err = tok.Seal(hx.NewRNG(seedOf(hist[:k+1])))
+			tok, err = tok.Seal(c17RNG(seedOf(hist[:k+1]), short))
 		case 'R':
 			var ser []byte
 			ser, err = tok.Serialize()
@@ -97,137 +116,173 @@ func init() {
 		Assume:    []string{"identical operations replayed with the same RNG stream are the same operation (same id expected)"},
 		Spaces: func(c *sup.Ctx) []*sup.Space {
 			hists := c17Histories(sup.Pick(c, 7, 9))
-			var mu sync.Mutex
-			owner := map[string]string{} // signature -> operation (history prefix) that created it
-			return []*sup.Space{{Name: "derivation-histories", Size: func(*sup.Ctx) int64 { return int64(len(hists)) }, Run: func(i int64, w *sup.W) {
-				hist := hists[i]
-				toks, err := c17Replay(hist)
-				if err != nil {
-					w.Class("op-error")
-					w.Violate("C17:operation-failed", hist, err.Error(), "every operation of the history succeeds")
-					return
-				}
-				w.Stats().States++
-				w.Stats().Transitions += int64(len(hist) - 1)
-				// which operation signed block j: the j-th signing operation of the history
-				var signers []string
-				for k := 1; k < len(hist); k++ {
-					if k == 1 || strings.ContainsRune("epq", rune(hist[k])) {
-						signers = append(signers, hist[:k+1])
-					}
-				}
-				var prev [][]byte
-				nblocks := 0
-				for step, tok := range toks {
-					k := step + 1 // index in hist of the op that produced tok
-					if k == 1 || strings.ContainsRune("epq", rune(hist[k])) {
-						nblocks++
-					}
-					ids := tok.RevocationIds()
-					if len(ids) != nblocks {
-						w.Class("wrong-count")
-						w.Violate("C17:id-count", fmt.Sprintf("%s after step %d", hist, step), fmt.Sprint(len(ids)), fmt.Sprint(nblocks))
+			mk := func(name string, hists []string, short bool) *sup.Space {
+				var mu sync.Mutex
+				owner := map[string]string{} // signature -> operation (history prefix) that created it
+				var self *sup.Space
+				self = &sup.Space{Name: name, Size: func(*sup.Ctx) int64 { return int64(len(hists)) }, Run: func(i int64, w *sup.W) {
+					hist := hists[i]
+					toks, err := c17Replay(hist, short)
+					if err != nil {
+						w.Class("op-error")
+						w.Violate("C17:operation-failed", hist, err.Error(), "every operation of the history succeeds")
 						return
 					}
-					for j := range prev {
-						if !bytes.Equal(prev[j], ids[j]) {
-							w.Class("prefix-changed")
-							w.Violate("C17:parent-ids-not-a-prefix", fmt.Sprintf("%s after step %d (%c)", hist, step, hist[k]), fmt.Sprintf("id[%d]=%x", j, ids[j]), fmt.Sprintf("%x", prev[j]))
+					w.Stats().States++
+					w.Stats().Transitions += int64(len(hist) - 1)
+					// which operation signed block j: the j-th signing operation of the history
+					var signers []string
+					for k := 1; k < len(hist); k++ {
+						if k == 1 || strings.ContainsRune("epq", rune(hist[k])) {
+							signers = append(signers, hist[:k+1])
+						}
+					}
+					var prev [][]byte
+					nblocks := 0
+					for step, tok := range toks {
+						k := step + 1 // index in hist of the op that produced tok
+						if k == 1 || strings.ContainsRune("epq", rune(hist[k])) {
+							nblocks++
+						}
+						ids := tok.RevocationIds()
+						if len(ids) != nblocks {
+							w.Class("wrong-count")
+							w.Violate("C17:id-count", fmt.Sprintf("%s after step %d", hist, step), fmt.Sprint(len(ids)), fmt.Sprint(nblocks))
 							return
 						}
-					}
-					ser, err := tok.Serialize()
-					if err != nil {
-						w.Violate("C17:serialize-failed", hist, err.Error(), "bytes")
-						return
-					}
-					env, err := wire.DecodeEnvelope(ser)
-					if err != nil {
-						w.Violate("C17:reference-decoder-rejects-library-bytes", hist, err.Error(), "decodable")
-						return
-					}
-					all := append([]wire.SignedBlock{env.Authority}, env.Blocks...)
-					if len(all) != len(ids) {
-						w.Violate("C17:id-count-vs-wire", hist, fmt.Sprint(len(ids)), fmt.Sprint(len(all)))
-						return
-					}
-					for j := range ids {
-						if !bytes.Equal(ids[j], all[j].Sig) {
-							w.Class("id-not-signature")
-							w.Violate("C17:id-differs-from-wire-signature", fmt.Sprintf("%s block %d", hist, j), fmt.Sprintf("%x", ids[j]), fmt.Sprintf("%x", all[j].Sig))
+						for j := range prev {
+							if !bytes.Equal(prev[j], ids[j]) {
+								w.Class("prefix-changed")
+								w.Violate("C17:parent-ids-not-a-prefix", fmt.Sprintf("%s after step %d (%c)", hist, step, hist[k]), fmt.Sprintf("id[%d]=%x", j, ids[j]), fmt.Sprintf("%x", prev[j]))
+								return
+							}
+						}
+						ser, err := tok.Serialize()
+						if err != nil {
+							w.Violate("C17:serialize-failed", hist, err.Error(), "bytes")
 							return
 						}
-					}
-					prev = ids
-				}
-				// fork: two further tokens derived from the final token must not disturb it or each other
-				final := toks[len(toks)-1]
-				if !strings.ContainsRune(hist, 'S') {
-					mkChild := func(tag byte) (*biscuit.Biscuit, error) {
-						bb := final.CreateBlock()
-						if err := hx.FillBlock(bb, c17Contents[tag]); err != nil {
-							return nil, err
-						}
-						return final.Append(hx.NewRNG(seedOf(hist+"|fork"+string(tag))), bb.Build())
-					}
-					a, err := mkChild('P')
-					if err != nil {
-						w.Violate("C17:fork-failed", hist, err.Error(), "a token")
-						return
-					}
-					idsA := a.RevocationIds()
-					serA, _ := a.Serialize()
-					b, err := mkChild('Q')
-					if err != nil {
-						w.Violate("C17:fork-failed", hist, err.Error(), "a token")
-						return
-					}
-					w.Stats().Transitions += 2
-					after := a.RevocationIds()
-					serA2, _ := a.Serialize()
-					same := len(after) == len(idsA) && bytes.Equal(serA, serA2)
-					for k := range idsA {
-						if same && !bytes.Equal(idsA[k], after[k]) {
-							same = false
-						}
-					}
-					if !same {
-						w.Class("sibling-disturbed")
-						w.Violate("C17:sibling-derivation-changes-ids", hist+" then Append(P) -> a, Append(Q) -> b on the same parent", fmt.Sprintf("ids of a after b was created: %x", after), fmt.Sprintf("%x", idsA))
-						return
-					}
-					idsB := b.RevocationIds()
-					if len(idsB) != len(idsA) || bytes.Equal(idsA[len(idsA)-1], idsB[len(idsB)-1]) {
-						w.Class("siblings-share-id")
-						w.Violate("C17:siblings-share-an-id", hist+" forked", fmt.Sprintf("%x / %x", idsA[len(idsA)-1], idsB[len(idsB)-1]), "distinct identifiers")
-						return
-					}
-					for k := range prev {
-						if !bytes.Equal(prev[k], idsA[k]) || !bytes.Equal(prev[k], idsB[k]) || !bytes.Equal(prev[k], final.RevocationIds()[k]) {
-							w.Violate("C17:parent-ids-not-a-prefix-after-fork", hist+" forked", "changed", "unchanged")
+						env, err := wire.DecodeEnvelope(ser)
+						if err != nil {
+							w.Violate("C17:reference-decoder-rejects-library-bytes", hist, err.Error(), "decodable")
 							return
 						}
+						all := append([]wire.SignedBlock{env.Authority}, env.Blocks...)
+						if len(all) != len(ids) {
+							w.Violate("C17:id-count-vs-wire", hist, fmt.Sprint(len(ids)), fmt.Sprint(len(all)))
+							return
+						}
+						for j := range ids {
+							if !bytes.Equal(ids[j], all[j].Sig) {
+								w.Class("id-not-signature")
+								w.Violate("C17:id-differs-from-wire-signature", fmt.Sprintf("%s block %d", hist, j), fmt.Sprintf("%x", ids[j]), fmt.Sprintf("%x", all[j].Sig))
+								return
+							}
+						}
+						prev = ids
 					}
-				}
-				mu.Lock()
-				for j, id := range prev {
-					if o, ok := owner[string(id)]; ok && o != signers[j] {
-						mu.Unlock()
-						w.Class("duplicate-id")
-						w.Violate("C17:two-operations-share-an-id", fmt.Sprintf("block %d of %s (signed by operation %s) and a block signed by operation %s", j, hist, signers[j], o), fmt.Sprintf("%x", id), "distinct identifiers")
+					// fork: two further tokens derived from the final token must not disturb it or each other
+					final := toks[len(toks)-1]
+					if !strings.ContainsRune(hist, 'S') {
+						mkChild := func(tag byte) (*biscuit.Biscuit, error) {
+							bb := final.CreateBlock()
+							if err := hx.FillBlock(bb, c17Contents[tag]); err != nil {
+								return nil, err
+							}
+							return final.Append(c17RNG(seedOf(hist+"|fork"+string(tag)), short), bb.Build())
+						}
+						a, err := mkChild('P')
+						if err != nil {
+							w.Violate("C17:fork-failed", hist, err.Error(), "a token")
+							return
+						}
+						idsA := a.RevocationIds()
+						serA, _ := a.Serialize()
+						b, err := mkChild('Q')
+						if err != nil {
+							w.Violate("C17:fork-failed", hist, err.Error(), "a token")
+							return
+						}
+						w.Stats().Transitions += 2
+						after := a.RevocationIds()
+						serA2, _ := a.Serialize()
+						same := len(after) == len(idsA) && bytes.Equal(serA, serA2)
+						for k := range idsA {
+							if same && !bytes.Equal(idsA[k], after[k]) {
+								same = false
+							}
+						}
+						if !same {
+							w.Class("sibling-disturbed")
+							w.Violate("C17:sibling-derivation-changes-ids", hist+" then Append(P) -> a, Append(Q) -> b on the same parent", fmt.Sprintf("ids of a after b was created: %x", after), fmt.Sprintf("%x", idsA))
+							return
+						}
+						idsB := b.RevocationIds()
+						if len(idsB) != len(idsA) || bytes.Equal(idsA[len(idsA)-1], idsB[len(idsB)-1]) {
+							w.Class("siblings-share-id")
+							w.Violate("C17:siblings-share-an-id", hist+" forked", fmt.Sprintf("%x / %x", idsA[len(idsA)-1], idsB[len(idsB)-1]), "distinct identifiers")
+							return
+						}
+						for k := range prev {
+							if !bytes.Equal(prev[k], idsA[k]) || !bytes.Equal(prev[k], idsB[k]) || !bytes.Equal(prev[k], final.RevocationIds()[k]) {
+								w.Violate("C17:parent-ids-not-a-prefix-after-fork", hist+" forked", "changed", "unchanged")
+								return
+							}
+						}
+					}
+					mu.Lock()
+					for j, id := range prev {
+						if o, ok := owner[string(id)]; ok && o != signers[j] {
+							mu.Unlock()
+							w.Class("duplicate-id")
+							w.SetCase(map[string]interface{}{"pair": []string{hist, o}})
+							w.Violate("C17:two-operations-share-an-id", fmt.Sprintf("block %d of %s (signed by operation %s) and a block signed by operation %s", j, hist, signers[j], o), fmt.Sprintf("%x", id), "distinct identifiers")
+							return
+						}
+						owner[string(id)] = signers[j]
+					}
+					mu.Unlock()
+					w.Class(fmt.Sprintf("%d-blocks", nblocks))
+					if len(hist) > 2 {
+						w.NontrivialByIndex()
+					}
+					if w.WantSample(fmt.Sprint(nblocks)) {
+						w.Sample(fmt.Sprint(nblocks), map[string]string{"history": hist, "ids": fmt.Sprintf("%x", prev)})
+					}
+				}, ReplayCase: func(raw json.RawMessage, w *sup.W) {
+					var cs struct {
+						Idx  *int64   `json:"idx"`
+						Pair []string `json:"pair"`
+					}
+					if json.Unmarshal(raw, &cs) != nil {
 						return
 					}
-					owner[string(id)] = signers[j]
-				}
-				mu.Unlock()
-				w.Class(fmt.Sprintf("%d-blocks", nblocks))
-				if len(hist) > 2 {
-					w.NontrivialByIndex()
-				}
-				if w.WantSample(fmt.Sprint(nblocks)) {
-					w.Sample(fmt.Sprint(nblocks), map[string]string{"history": hist, "ids": fmt.Sprintf("%x", prev)})
-				}
-			}}}
+					if len(cs.Pair) != 2 {
+						if cs.Idx != nil && *cs.Idx < int64(len(hists)) {
+							self.Run(*cs.Idx, w)
+						}
+						return
+					}
+					// two operations, each replayed from its own history: do they share an identifier?
+					w.SetCase(map[string]interface{}{"pair": cs.Pair})
+					var idb []byte
+					if toks, err := c17Replay(cs.Pair[1], short); err == nil && len(toks) > 0 {
+						ids := toks[len(toks)-1].RevocationIds()
+						idb = ids[len(ids)-1] // the owner entry is the history prefix ending with the signing operation
+					}
+					if toks, err := c17Replay(cs.Pair[0], short); err == nil && idb != nil {
+						for _, id := range toks[len(toks)-1].RevocationIds() {
+							if bytes.Equal(id, idb) {
+								w.Violate("C17:two-operations-share-an-id", fmt.Sprintf("a block of %s and the block signed by operation %s", cs.Pair[0], cs.Pair[1]), fmt.Sprintf("%x", id), "distinct identifiers")
+								return
+							}
+						}
+					}
+				}}
+				return self
+			}
+			// the second space draws all randomness through a reader that delivers one byte per call
+			return []*sup.Space{mk("derivation-histories", hists, false), mk("derivation-histories-short-reads", c17Histories(sup.Pick(c, 6, 7)), true)}
 		},
 	})
 }
